@@ -8,6 +8,12 @@ MPT_COMPONENTS = {
 
 ROCKS_ASSUMPTION = "the simulated RocksDB implements the documented contract the code relies on (atomic WriteBatch, ordered snapshot iteration, missing key = empty slice, WAL-prefix durability); behaviour specific to real RocksDB (compaction, iterator snapshots under concurrent writes) is out of reach"
 
+WMPT_COMPONENTS = {
+    "real": ["core/util/wmpt (weighted Merkle trie, node codecs, proofs, path export) - unmodified sources of /repo's working tree",
+             "core/util/storage/kv PebbleAdapter + real pebble on pebble's crash-simulating vfs.StrictMem (minority of runs)", "core/encryption (sha3)"],
+    "stub": ["storage.StorageAdapter -> /verif/harness/simkv (in-memory store with atomic batches, write log, sync points, crash prefixes, error and corruption injection) in the majority of runs"],
+}
+
 def mpt(level="exploration", **kw):
     d = dict(level=level, components=MPT_COMPONENTS)
     d.update(kw)
@@ -66,5 +72,29 @@ PROPS = {
         rule="multi-round histories as in C04 (2-8 rounds; small value domain so that delete-then-recreate of byte-identical content is common inside a round across sibling transactions and across rounds; rare long runs of 40-80 rounds accumulate > 1000 dead nodes so that prune issues several delete batches) with PruneBelowVersion(v) for v from below the first to above the last round, interleaved with further rounds. Oracle 1: for every round r the recorded dead set D_r is disjoint from the node set reachable (harness walk over the persistent store) from the root of r and of every later round. Oracle 2: after prune(v), and for EVERY prefix of the prune's write stream (crash inside prune) and again after re-running prune on the crashed disk: every root saved at a version >= v reads completely with its original content from the persistent store alone; every deleted node key was recorded dead by a round < v; after a completed prune the records of rounds < v are gone. evaluations = histories; crash_points = crash states explored",
         state_measure="digest of the saved content per round",
         assumptions=[ROCKS_ASSUMPTION, "pruning runs against saved state (all executed rounds are saved before a prune); batches are atomic"],
+    ),
+    "C09": dict(
+        level="exploration", components=WMPT_COMPONENTS,
+        quick=dict(runs=48000, budget_s=90), thorough=dict(runs=3000000, budget_s=1200),
+        rule="seeded histories (2-40 ops, rarely 100-300) of update / same-value rewrite / re-add of identical content / delete (both APIs) / Root() at any time / Commit at collapse level 0,1,2,3,64 + batch commit / DeleteNodes / reload from (root hash, weight) over pools of 32-byte keys built to share prefixes of 0..63 nibbles; weight = 1 + value[0] mod 7. Weight() is compared with the model after EVERY operation; after every commit Root() equals an independent hasher over the canonical trie of the content and GetBlockProof(b) names the owner of b for every b in 1..W (W<=128; else all interval boundaries +-1 and a sample) on the live trie AND on a trie reloaded from storage; W+1 is rejected. Storage: simulated StorageAdapter, 1/12 of the runs the real kv.PebbleAdapter on pebble's StrictMem FS. Non-trivial: >= 2 effective mutations and >= 1 commit",
+        state_measure="digest of (canonical weighted-trie shape of the content, collapse level of the commit)",
+        assumptions=["observations that perturb (GetBlockProof/GetPath on a dirty trie) are not used as implicit oracle probes: owner sweeps run on a just-committed trie and on a separately reloaded object; Root() is a history operation the generator places anywhere",
+                     "the simulated StorageAdapter models atomic batches and ordered durability; no fault kind is needed for this property (fault-free configuration)"],
+    ),
+    "C11": dict(
+        level="fault_enumeration", components=WMPT_COMPONENTS,
+        quick=dict(runs=12000, budget_s=120), thorough=dict(runs=600000, budget_s=1500),
+        rule="histories as in C09 (a third of the runs with a 3-value domain so that identical nodes are re-created), plus power-loss/crash as a generated operation (simulated store: any prefix of the write log not shorter than the last synced batch survives; pebble: ResetToSyncedState) after which the run continues on the surviving state. After every batch commit and after every DeleteNodes pass a trie reopened from just (root hash, weight) must be observationally identical to what the LIVE trie showed right after its commit (weight; for every probed block: owner, value, proof verifying to the root) and a reachability walk over raw storage must find every node. Crash enumeration, exhaustive per history: for EVERY prefix of the storage write log (= every boundary between two storage operations; batches atomic) the last commit whose batch survived must be fully resolvable and identical on a clone of that prefix. evaluations = histories; crash_points = crash states explored",
+        state_measure="digest of (canonical weighted-trie shape of the content, collapse level of the commit)",
+        assumptions=["batches are atomic; a synced batch makes every earlier write durable; an empty batch syncs nothing",
+                     "the comparison is live-vs-reopened (as the property says), not model-vs-reopened, so a weight defect (C09) raises no alarm here"],
+    ),
+    "C13": dict(
+        level="exploration", components=WMPT_COMPONENTS,
+        quick=dict(runs=32000, budget_s=90), thorough=dict(runs=2000000, budget_s=1200),
+        rule="histories as in C09 with checkpoints: commit A, SaveRoot on the clean trie, a batch of changes (new keys, changed values, same-value rewrites, delete-and-re-add of identical content, deletes), exactly one commit B at any collapse level, optionally one DeleteNodes pass, then Rollback() or RollbackTrie(NewHashNode(rootA, weightA)); several checkpoint/rollback cycles per run, and the run continues after a rollback (further commits and GC passes). Oracle: Root()/Weight() equal A's; every storage key reachable from A when the checkpoint was taken is still present; a trie reopened from A shows exactly what the live trie showed right after A's commit (owner, value, verifying proof for every probed block); no storage key written only by commit B (present after B's batch, absent before it) is left. Non-trivial: >= 2 mutations and a commit",
+        state_measure="digest of (canonical weighted-trie shape of the content, collapse level of the commit)",
+        assumptions=["the rollback window is what the property states: one committed batch of changes after the checkpoint, at most one GC pass in between; rollbacks of uncommitted-only changes are outside the quantifier and are not generated",
+                     "simulated StorageAdapter only (storage key accounting needs the raw key set)"],
     ),
 }
